@@ -475,6 +475,7 @@ impl World {
             }
         };
         let mut out = BTreeMap::new();
+        let mut classic = BTreeSet::new();
         for (rb, chain) in &w.chains {
             let r = match self.right_to_model(rb) {
                 Ok(r) => r,
@@ -493,11 +494,17 @@ impl World {
                     }
                 }
             }
+            for (sec, v) in chain.iter().zip(&vs) {
+                if let (Some(v), false) = (v, sec.hybrid()) {
+                    classic.insert((r.clone(), *v));
+                }
+            }
             if out.insert(r.clone(), vs).is_some() {
                 let msg = format!("{what}: user key {k} has two chains for {}", self.show_right(&r));
                 self.fail("C03.k", msg);
             }
         }
+        self.usks[k].model.classic = classic;
         Some((w, out))
     }
 
